@@ -238,6 +238,14 @@ func substitute(steps []map[string]any, r *rand.Rand) []map[string]any {
 				max = 72 // bcrypt's input limit
 			}
 			n := legalName(r, max)
+			if role == "pw" {
+				// a password that begins with / contains the marker byte keeps that shape
+				if i := bytes.IndexByte(b, 0xff); i == 0 {
+					n = append([]byte{0xff}, legalName(r, 60)...)
+				} else if i > 0 {
+					n = append(append(legalName(r, 30), 0xff), legalName(r, 30)...)
+				}
+			}
 			if role == "login" && edgeLogin {
 				// one script in five: the first login is as long as a file name allows (login + ".yaml" = 252..255 bytes)
 				edgeLogin = false
@@ -351,10 +359,10 @@ func (r *run) universe(steps []map[string]any) {
 		if v, ok := rec["pw"]; ok {
 			if _, isRec := v.(map[string]any); isRec {
 				if has, c := pwOf(v); has {
-					addUniq(&r.pws, c, 5)
+					addUniq(&r.pws, c, 7)
 				}
 			} else {
-				addUniq(&r.pws, bytesOf(v), 5)
+				addUniq(&r.pws, bytesOf(v), 7)
 			}
 		}
 	}
@@ -364,7 +372,7 @@ func (r *run) universe(steps []map[string]any) {
 				addUniq(&r.logins, l, 4)
 			}
 			for _, p := range stormPool {
-				addUniq(&r.pws, p, 5)
+				addUniq(&r.pws, p, 7)
 			}
 		}
 		scan(st)
@@ -541,7 +549,7 @@ func (r *run) step(st map[string]any, ev map[string]any) error {
 	return fmt.Errorf("unknown op %q", op)
 }
 
-var stormPool = [][]byte{{}, []byte("p"), []byte("q"), []byte("r")}
+var stormPool = [][]byte{{}, []byte("p"), []byte("q"), []byte("r"), []byte("\xffs")} // the last one begins like the marker
 
 func stormLogins(st map[string]any) [][]byte {
 	n := 3
